@@ -212,6 +212,13 @@ example : compilePolygonSet defaultCtx "[[0,0],[1,0],[0,1]], [[2,2],[3,2],[2,3]]
     .ok [[(.lit 0 0, .lit 0 0), (.lit 1 0, .lit 0 0), (.lit 0 0, .lit 1 0)],
          [(.lit 2 0, .lit 2 0), (.lit 3 0, .lit 2 0), (.lit 2 0, .lit 3 0)]] :=
   of_lokIs (by decide +kernel)
+/-- the entries go through the expression parser, so the list parsers inherit the repaired
+    `parse_const`: a constant whose name starts with a number word is an entry like any other
+    (before the repair: `.error .parsing`, `inf` was a number and `o` was left over before the ',') -/
+example : compileIntervalList (defaultCtx.insert "info" .const) "[info, inf], [-nan, 2*info]".toList =
+    .ok [(.cst "info", .litInf), (.un .neg .litNan, .bin .mul (.lit 2 0) (.cst "info"))] :=
+  of_lokIs (by decide +kernel)
+example : compileIntervalList defaultCtx "[info, 1]".toList = .error .parsing := of_lerrIs (by decide +kernel)
 example : compileIntervalList defaultCtx "".toList = .error .parsing := of_lerrIs (by decide +kernel)
 example : compileIntervalList defaultCtx "[0,1],".toList = .error .parsing := of_lerrIs (by decide +kernel)
 example : compileIntervalList defaultCtx "[0,1][2,3]".toList = .error .residue := of_lerrIs (by decide +kernel)
